@@ -142,6 +142,8 @@ pub struct Gen<'t, 'd> {
     pub wild_prog: bool,
     /// number of `select !{..}` steps over a wildcard frame so far
     pub n_wild_except: usize,
+    /// the append just generated is to be emitted twice
+    pub dup_append: bool,
     cur_src_let: bool,
     after_append: bool,
     in_sub: bool,
@@ -238,6 +240,7 @@ impl<'t, 'd> Gen<'t, 'd> {
             names: Names::plain(),
             wild_prog: false,
             n_wild_except: 0,
+            dup_append: false,
             cur_src_let: false,
             after_append: false,
             in_sub: false,
@@ -1801,7 +1804,32 @@ impl<'t, 'd> Gen<'t, 'd> {
         // bottom: a sub-pipeline over some table selecting columns of matching types
         let ti = self.t.choose(self.db.tables.len());
         let tname = self.db.tables[ti].name.clone();
-        let tf = self.table_frame(&tname, &tname, true);
+        let mut tf = self.table_frame(&tname, &tname, true);
+        let mut bottom_src = SrcKind::Table(tname);
+        // sometimes the bottom reads a let-table (which may also be read elsewhere in the program)
+        if !self.lets.is_empty() && self.t.chance(1, 3) {
+            let li = self.t.choose(self.lets.len());
+            let (lf, _) = self.let_frames[li].clone();
+            if lf.wild_rels.is_empty() && !lf.cols.is_empty() {
+                let lname = self.lets[li].name.clone();
+                // same arity and column types: the let-table itself can be the operand (`append l0`)
+                let same_shape = lf.cols.len() == frame.cols.len() && lf.cols.iter().zip(&frame.cols).all(|(a, b)| a.ty == b.ty);
+                if same_shape && self.t.chance(2, 3) {
+                    for c in frame.cols.iter_mut() {
+                        c.unique = false;
+                        c.nullable = true;
+                        c.rel = None;
+                    }
+                    frame.wild_rels.clear();
+                    return Some(Step::Append(Box::new(Source { kind: SrcKind::Let(li), alias: None })));
+                }
+                tf = lf;
+                for c in tf.cols.iter_mut() {
+                    c.rel = Some(lname.clone());
+                }
+                bottom_src = SrcKind::Let(li);
+            }
+        }
         let mut items = vec![];
         let mut used_names: Vec<String> = vec![];
         for c in &frame.cols {
@@ -1833,6 +1861,51 @@ impl<'t, 'd> Gen<'t, 'd> {
                 it.alias = Some(self.fresh_alias());
             }
         }
+        // sometimes the bottom pipeline is declared as a let-table of its own and appended by
+        // name (`append la0`); other parts of the program may read the same let-table
+        if self.cfg.allow_lets && matches!(bottom_src, SrcKind::Table(_)) && self.t.chance(1, 4) {
+            let lname = format!("la{}", self.lets.len());
+            let lf = Frame {
+                cols: items
+                    .iter()
+                    .zip(&frame.cols)
+                    .map(|(it, c)| FCol {
+                        name: it.alias.clone().or_else(|| match &it.expr {
+                            Expr::Col(cr) => tf.cols[cr.idx].name.clone(),
+                            _ => None,
+                        }),
+                        rel: Some(lname.clone()),
+                        ty: c.ty,
+                        unique: false,
+                        nullable: true,
+                        deps: vec![],
+                        is_const: !matches!(it.expr, Expr::Col(_)),
+                        computed: !matches!(it.expr, Expr::Col(_)),
+                        windowed: false,
+                    })
+                    .collect(),
+                wild_rels: vec![],
+            };
+            self.lets.push(LetDef {
+                name: lname,
+                pipe: Pipeline {
+                    source: Source { kind: bottom_src, alias: None },
+                    steps: vec![Step::Select(items)],
+                },
+                into: false,
+                module: None,
+            });
+            self.let_frames.push((lf, Ord::default()));
+            for c in frame.cols.iter_mut() {
+                c.unique = false;
+                c.nullable = true;
+                c.rel = None;
+            }
+            frame.wild_rels.clear();
+            // ... and sometimes it is appended twice in a row
+            self.dup_append = self.t.chance(1, 3);
+            return Some(Step::Append(Box::new(Source { kind: SrcKind::Let(self.lets.len() - 1), alias: None })));
+        }
         for c in frame.cols.iter_mut() {
             c.unique = false;
             c.nullable = true;
@@ -1842,7 +1915,7 @@ impl<'t, 'd> Gen<'t, 'd> {
         Some(Step::Append(Box::new(Source {
             kind: SrcKind::Sub(Box::new(Pipeline {
                 source: Source {
-                    kind: SrcKind::Table(tname),
+                    kind: bottom_src,
                     alias: None,
                 },
                 steps: vec![Step::Select(items)],
@@ -2035,6 +2108,12 @@ impl<'t, 'd> Gen<'t, 'd> {
                     let s = self.gen_append(frame);
                     if s.is_some() {
                         *ord = Ord::default();
+                    }
+                    if self.dup_append {
+                        self.dup_append = false;
+                        if let Some(st) = &s {
+                            steps.push(st.clone());
+                        }
                     }
                     s
                 }
